@@ -95,6 +95,10 @@ def handleLink (j : Json) : R Json := do
                                             "buildKids" this is its `NewScopeSchema`; later on, `ApplySelf()`)
           ["apply",name,ns,from]            `root.ApplyNamespace(from.Objects(), ns)`
           ["applyAt",name,path,ns,from]     the same on the scope at `path` inside the tree (from "" = nil table)
+          ["applySub",name,ns,from,id,...]  `apply` with the table of `from` minus the listed IDs
+          ["applyAtSub",name,path,ns,from,id,...]   likewise at `path`
+          ["try",step...]                   the step under `recover()`: if it panics the program goes on with
+                                            the trees as they were (`Link.recovered`)
   result: {"r":"ok","v":{"trees":[[name,[[path,target],...],valid],...]}} for all trees in the given order,
           {"r":"panic"} if any step panics. -/
 
@@ -109,7 +113,9 @@ def tableOf (store : List (String × LTy)) (src : String) : Table :=
 
 def splitPath (s : String) : Path := if s.isEmpty then [] else s.splitOn "/"
 
-def runStep (store : List (String × LTy)) (step : List String) : Except String (Out (List (String × LTy))) :=
+def tableMinus (tb : Table) (ids : List String) : Table := tb.filter fun e => !(ids.contains e.1)
+
+def runStep1 (store : List (String × LTy)) (step : List String) : Except String (Out (List (String × LTy))) :=
   let upd (name : String) (f : LTy → Out LTy) : Except String (Out (List (String × LTy))) :=
     match lookupS name store with
     | none => .error s!"unknown tree {name}"
@@ -123,7 +129,19 @@ def runStep (store : List (String × LTy)) (step : List String) : Except String 
   | ["self", name] => upd name (applyNs name [] "" [])
   | ["apply", name, ns, src] => upd name (applyNs name (tableOf store src) ns [])
   | ["applyAt", name, path, ns, src] => upd name (applyAt name (tableOf store src) ns (splitPath path) [])
+  | "applySub" :: name :: ns :: src :: missing => upd name (applyNs name (tableMinus (tableOf store src) missing) ns [])
+  | "applyAtSub" :: name :: path :: ns :: src :: missing =>
+    upd name (applyAt name (tableMinus (tableOf store src) missing) ns (splitPath path) [])
   | _ => .error s!"bad step {step}"
+
+def runStep (store : List (String × LTy)) (step : List String) : Except String (Out (List (String × LTy))) :=
+  match step with
+  | "try" :: rest =>
+    match runStep1 store rest with
+    | .error e => .error e
+    | .ok (.ok s) => .ok (.ok s)
+    | .ok _ => .ok (.ok store)   -- recovered: every tree as it was
+  | _ => runStep1 store step
 
 def handleLinkP (j : Json) : R Json := do
   let trees ← (← arrField j "trees").toList.mapM fun e => do
